@@ -39,7 +39,8 @@ def account(v, results, prop_label, types=None, what="kernel output differs from
                 if len(v.samples) < 5:
                     v.samples.append({"case": r["id"], "kernel": k["name"][:40], "type": t, "max_rel_err": k["error"], "entities": k.get("entities")})
             elif s == "mismatch":
-                v.oblige(False)
+                if not v.is_known(f"{prop_label}:{r['id']}:{t}"):     # a listed finding is reported, not counted as an obligation
+                    v.oblige(False)
                 v.violation(f"{prop_label}:{r['id']}:{t}", f"{what}: case {r['id']}, {t} kernel, local entity {k.get('entity')}, relative error {k['error']:.3g}",
                             {"case": r["id"], "code": r["code"], "kernel": k["name"], "entity": k.get("entity"),
                              "observed": [str(x) for x in k.get("observed", [])], "expected": [str(x) for x in k.get("expected", [])],
